@@ -26,6 +26,7 @@ import (
 	"github.com/lightninglabs/neutrino"
 	"github.com/lightninglabs/neutrino/cache/lru"
 	"github.com/lightninglabs/neutrino/filterdb"
+	"github.com/lightninglabs/neutrino/headerfs"
 	"github.com/lightninglabs/neutrino/query"
 
 	c "verifharness/internal/common"
@@ -50,13 +51,18 @@ type Resp struct {
 
 // Op is one operation of a history.
 type Op struct {
-	Kind     string `json:"kind"`   // call|dropcache|purge
-	Height   int    `json:"height"` // -1: a hash without a header
-	FType    int    `json:"ftype"`  // 0 regular
-	Batch    int    `json:"batch"`  // 0 none, 1 forward, 2 reverse
-	MaxBatch int64  `json:"max_batch"`
-	Resps    []Resp `json:"resps,omitempty"`
-	Verdict  string `json:"verdict,omitempty"`
+	Kind     string  `json:"kind"`             // call|dropcache|purge|rewrite
+	Hold     bool    `json:"hold,omitempty"`   // call A: its query is held open while the next call is started
+	Queued   bool    `json:"queued,omitempty"` // call B: started while the held call is in flight
+	From     int     `json:"from,omitempty"`   // rewrite: filter headers From..tip are rolled back and re-written
+	Toggle   []int   `json:"toggle,omitempty"` // rewrite: heights whose committed filter changes
+	NewFHs   []int64 `json:"new_fhs,omitempty"`
+	Height   int     `json:"height"` // -1: a hash without a header
+	FType    int     `json:"ftype"`  // 0 regular
+	Batch    int     `json:"batch"`  // 0 none, 1 forward, 2 reverse
+	MaxBatch int64   `json:"max_batch"`
+	Resps    []Resp  `json:"resps,omitempty"`
+	Verdict  string  `json:"verdict,omitempty"`
 	// observations
 	Res     string     `json:"res,omitempty"` // filter|fetch|query|quit|other
 	ResTok  int64      `json:"res_tok,omitempty"`
@@ -136,7 +142,7 @@ func clampRange(h, best, batch int, maxb int64) (int, int) {
 	return st, sp
 }
 
-var badKinds = []string{"true_filter", "other_filter", "corrupt", "truncate", "empty", "bad_n",
+var badKinds = []string{"alt_variant", "true_filter", "other_filter", "corrupt", "truncate", "empty", "bad_n",
 	"wrong_type", "unsolicited", "unknown_block", "noncfilter", "badreq", "badreq_type", "honest"}
 
 func genCall(r *rand.Rand, cfg *ChainCfg, used []int, last bool) Op {
@@ -230,8 +236,75 @@ func genHistory(r *rand.Rand, id int, cfg ChainCfg) History {
 	}
 	nops := 4 + r.Intn(6)
 	var used []int
+	best := cfg.FTip
 	for i := 0; i < nops; i++ {
 		x := r.Intn(100)
+		// call A held in flight / headers rewritten / call B queued behind A
+		if best >= 3 && i < nops-1 && ((i == 0 && r.Intn(100) < 45) || (i > 0 && r.Intn(100) < 4)) {
+			t := 2 + r.Intn(best-1) // B's target
+			b := Op{Kind: "call", Queued: true, Height: t, Batch: []int{0, 0, 1, 2}[r.Intn(4)],
+				MaxBatch: []int64{0, 1, 2, 3}[r.Intn(4)], Verdict: []string{"ok", "ok", "ok", "err"}[r.Intn(4)]}
+			st, sp := clampRange(t, best, b.Batch, b.MaxBatch)
+			// A: a single block outside B's range
+			a := 1 + r.Intn(best)
+			for tries := 0; a >= st && a <= sp && tries < 20; tries++ {
+				a = 1 + r.Intn(best)
+			}
+			if a >= st && a <= sp {
+				b.Batch, st, sp = 0, t, t
+				a = 1
+				if t == 1 {
+					a = 2
+				}
+			}
+			opA := Op{Kind: "call", Hold: true, Height: a, Verdict: []string{"ok", "ok", "err"}[r.Intn(3)]}
+			if r.Intn(10) < 8 {
+				opA.Resps = []Resp{{Kind: "honest", Height: a}}
+			}
+			for hh := st; hh <= sp; hh++ {
+				pair := []Resp{{Kind: "alt_variant", Height: hh}, {Kind: "honest", Height: hh}}
+				if r.Intn(2) == 0 {
+					pair[0], pair[1] = pair[1], pair[0]
+				}
+				if hh != t && r.Intn(2) == 0 {
+					pair = pair[1:]
+				}
+				b.Resps = append(b.Resps, pair...)
+			}
+			if r.Intn(3) == 0 {
+				r.Shuffle(len(b.Resps), func(i, j int) { b.Resps[i], b.Resps[j] = b.Resps[j], b.Resps[i] })
+			}
+			h.Ops = append(h.Ops, opA)
+			if r.Intn(10) < 7 {
+				k := st
+				if k > 1 && r.Intn(2) == 0 {
+					k = 1 + r.Intn(k)
+				}
+				if a >= k && r.Intn(3) > 0 {
+					// mostly leave A's own headers alone
+					if a < t {
+						k = a + 1
+					}
+				}
+				tg := []int{t}
+				for hh := k; hh <= best; hh++ {
+					if hh != t && r.Intn(3) == 0 {
+						tg = append(tg, hh)
+					}
+				}
+				h.Ops = append(h.Ops, Op{Kind: "rewrite", From: k, Toggle: tg})
+			}
+			h.Ops = append(h.Ops, b)
+			used = append(used, a, t)
+			i++
+			continue
+		}
+		if x >= 98 && best >= 2 {
+			k := 1 + r.Intn(best)
+			tg := []int{k + r.Intn(best-k+1)}
+			h.Ops = append(h.Ops, Op{Kind: "rewrite", From: k, Toggle: tg})
+			continue
+		}
 		switch {
 		case x < 8 && i > 0:
 			h.Ops = append(h.Ops, Op{Kind: "dropcache"})
@@ -312,6 +385,30 @@ func corpus(cfgs []ChainCfg) []History {
 			call(10, 1, 8, "ok", H(10), H(11), H(12), H(13), H(14), H(15), H(16), H(17)),
 			call(10, 0, 0, "err"), call(17, 0, 0, "err"), call(13, 0, 0, "err"),
 		}},
+		// queued call vs. header rewrite: B must verify against the headers
+		// committed when its own query starts
+		{ID: 8, Chain: a, CacheCap: 1 << 20, Persist: true, Ops: []Op{
+			{Kind: "call", Hold: true, Height: 1, Resps: []Resp{H(1)}, Verdict: "ok"},
+			{Kind: "rewrite", From: 5, Toggle: []int{5, 6}},
+			{Kind: "call", Queued: true, Height: 6, Resps: []Resp{B("alt_variant", 6), H(6)}, Verdict: "ok"},
+			call(6, 0, 0, "err"),
+		}},
+		{ID: 9, Chain: a, CacheCap: 1 << 20, Persist: false, Ops: []Op{
+			{Kind: "call", Hold: true, Height: 2, Resps: []Resp{H(2)}, Verdict: "ok"},
+			{Kind: "call", Queued: true, Height: 9, Batch: 1, MaxBatch: 2, Resps: []Resp{H(10), B("alt_variant", 9), H(9)}, Verdict: "ok"},
+			{Kind: "call", Hold: true, Height: 3, Resps: []Resp{H(3)}, Verdict: "err"},
+			{Kind: "rewrite", From: 12, Toggle: []int{13}},
+			{Kind: "call", Queued: true, Height: 13, Batch: 2, MaxBatch: 2, Resps: []Resp{H(13), B("alt_variant", 13), B("alt_variant", 12), H(12)}, Verdict: "ok"},
+		}},
+		// root cause 1 (known finding F-C05-2): a rewrite leaves a cached /
+		// stored filter behind that no longer matches the committed header
+		{ID: 10, Chain: a, CacheCap: 1 << 20, Persist: true, Ops: []Op{
+			call(5, 0, 0, "ok", H(5)),
+			{Kind: "rewrite", From: 5, Toggle: []int{5}},
+			call(5, 0, 0, "err"),
+			{Kind: "dropcache"},
+			call(5, 0, 0, "err"),
+		}},
 		{ID: 7, Chain: a, CacheCap: 1 << 20, Persist: true, Ops: []Op{
 			call(4, 1, 2, "ok", H(4), B("empty", 5), B("bad_n", 5), B("truncate", 5), B("noncfilter", 5), B("badreq", 5), B("badreq_type", 5), B("unknown_block", 5)),
 			call(5, 0, 0, "ok", H(5)),
@@ -358,6 +455,8 @@ type runner struct {
 	env     *q.Env
 	hashID  map[chainhash.Hash]int64
 	nextHID int64
+	variant []int // per height: 0 = Commit filter committed, 1 = Alt filter committed
+	ctls    chan *callCtl
 	ftok    *q.Interner // filters by N-bytes
 	htok    *q.Interner // filter headers
 	fhs     []chainhash.Hash
@@ -430,10 +529,16 @@ func (ru *runner) buildResp(r *Resp, reqMsg wire.Message) (wire.Message, wire.Me
 	rr := rand.New(rand.NewSource(r.MSeed))
 	hash := ch.Hashes[h]
 	ft := wire.GCSFilterRegular
-	data := filterBytes(ch.Commit[h])
+	cur, other := ch.Commit[h], ch.Alt[h]
+	if ru.variant[h] == 1 {
+		cur, other = other, cur
+	}
+	data := filterBytes(cur)
 	req := reqMsg
 	switch r.Kind {
 	case "honest":
+	case "alt_variant":
+		data = filterBytes(other)
 	case "true_filter":
 		data = filterBytes(ch.Filters[h])
 	case "other_filter":
@@ -532,6 +637,274 @@ func (ru *runner) flush() bool {
 	return true
 }
 
+// callCtl couples one GetCFilter call with the scripted work manager.
+type callCtl struct {
+	op       *Op
+	hold     bool          // keep the query open until finish()
+	gate     chan struct{} // if set: wait for it before touching anything
+	inFlight chan struct{} // closed when the query is (held) in flight / reached the gate
+	errChan  chan error
+	queried  bool
+	done     chan callRes
+}
+
+type callRes struct {
+	f   *gcs.Filter
+	err error
+}
+
+// serve is the scripted work manager's answer to the query of ctl.
+func (ru *runner) serve(ctl *callCtl, persist bool, reqs []*query.Request) chan error {
+	errChan := make(chan error, 1)
+	ctl.errChan = errChan
+	if ctl.gate != nil {
+		close(ctl.inFlight)
+		select {
+		case <-ctl.gate:
+		case <-time.After(30 * time.Second):
+		}
+	}
+	op := ctl.op
+	ctl.queried = true
+	if len(reqs) != 1 {
+		ru.fails = append(ru.fails, fmt.Sprintf("request: %d requests in one GetCFilter query", len(reqs)))
+		errChan <- errInjected
+		return errChan
+	}
+	gcf, ok := reqs[0].Req.(*wire.MsgGetCFilters)
+	if !ok || gcf.FilterType != wire.GCSFilterRegular {
+		ru.fails = append(ru.fails, "request: GetCFilter did not send a regular getcfilters")
+	} else {
+		op.Range = [2]int64{int64(gcf.StartHeight), ru.hid(gcf.StopHash)}
+	}
+	for ri := range op.Resps {
+		r := &op.Resps[ri]
+		req, msg := ru.buildResp(r, reqs[0].Req)
+		switch {
+		case req == reqs[0].Req:
+			r.Req = 0
+		case r.Kind == "badreq_type":
+			r.Req = 2
+		default:
+			r.Req = 1
+		}
+		r.IsCF, r.TypeOK, r.DecodeOK, r.Blk, r.Filt = false, false, false, 0, 0
+		if cf, isCF := msg.(*wire.MsgCFilter); isCF {
+			r.IsCF = true
+			r.TypeOK = cf.FilterType == wire.GCSFilterRegular
+			r.Blk = ru.hid(cf.BlockHash)
+			f, err := gcs.FromNBytes(builder.DefaultP, builder.DefaultM, cf.Data)
+			if err == nil {
+				if _, err2 := builder.MakeHeaderForFilter(f, chainhash.Hash{}); err2 == nil {
+					r.DecodeOK = true
+					r.Filt = ru.noteFilter(f, r.Blk)
+				}
+			}
+		}
+		pg := reqs[0].HandleResp(req, msg, q.PeerAddr(1+ri%5))
+		r.Prog = 0
+		switch {
+		case pg.Finished && pg.Progressed:
+			r.Prog = 2
+		case pg.Progressed:
+			r.Prog = 1
+		case pg.Finished:
+			r.Prog = 3
+		}
+		if r.Prog != 0 && persist {
+			ru.added++
+		}
+	}
+	if ctl.hold {
+		close(ctl.inFlight)
+		return errChan
+	}
+	ru.verdict(ctl)
+	return errChan
+}
+
+func (ru *runner) verdict(ctl *callCtl) {
+	switch ctl.op.Verdict {
+	case "ok":
+		ctl.errChan <- nil
+	case "err":
+		ctl.errChan <- errInjected
+	case "quit":
+		ru.env.CS.VerifQuit()
+	}
+}
+
+// start launches GetCFilter for op in a goroutine.
+func (ru *runner) start(op *Op, oi int, hold, gated bool) *callCtl {
+	ch := ru.ch
+	n := len(ch.Blocks) - 1
+	var target chainhash.Hash
+	if op.Height >= 0 && op.Height <= n {
+		target = ch.Hashes[op.Height]
+	} else {
+		op.Height = -1
+		target = chainhash.Hash{0xee, byte(oi), 0x02}
+	}
+	op.Range = [2]int64{0, 0}
+	ctl := &callCtl{op: op, hold: hold, inFlight: make(chan struct{}), done: make(chan callRes, 1)}
+	if gated {
+		ctl.gate = make(chan struct{})
+	}
+	ru.ctls <- ctl
+	go func() {
+		var opts []neutrino.QueryOption
+		switch op.Batch {
+		case 1:
+			opts = append(opts, neutrino.OptimisticBatch())
+		case 2:
+			opts = append(opts, neutrino.OptimisticReverseBatch())
+		}
+		if op.MaxBatch != 0 {
+			opts = append(opts, neutrino.MaxBatchSize(op.MaxBatch))
+		}
+		if oi%3 == 1 {
+			opts = append(opts, neutrino.NumRetries(uint8(oi)))
+		}
+		ft := wire.GCSFilterRegular
+		if op.FType != 0 {
+			ft = wire.FilterType(op.FType)
+		}
+		f, err := ru.env.CS.GetCFilter(target, ft, opts...)
+		ctl.done <- callRes{f, err}
+	}()
+	return ctl
+}
+
+// localHit tells whether GetCFilter for the block at height would be answered
+// from the cache or the database (without touching the LRU order).
+func (ru *runner) localHit(height int) bool {
+	if height < 0 || height >= len(ru.ch.Hashes) {
+		return false
+	}
+	hash := ru.ch.Hashes[height]
+	hit := false
+	ru.env.CS.FilterCache.RangeFILO(func(k neutrino.FilterCacheKey, _ *neutrino.CacheableFilter) bool {
+		if k.BlockHash == hash {
+			hit = true
+			return false
+		}
+		return true
+	})
+	if hit {
+		return true
+	}
+	f, err := ru.env.CS.FilterDB.FetchFilter(&hash, filterdb.RegularFilter)
+	return err == nil && f != nil
+}
+
+// finishObs waits for the call's result and records the observations.
+func (ru *runner) finishObs(h *History, ctl *callCtl, oi int) bool {
+	op := ctl.op
+	var out callRes
+	select {
+	case out = <-ctl.done:
+	case <-time.After(30 * time.Second):
+		h.Fail, h.FailAt = fmt.Sprintf("hang: GetCFilter did not return (op %d)", oi), oi
+		return false
+	}
+	// a call that never reached the work manager leaves its ctl queued
+	if !ctl.queried {
+		select {
+		case c2 := <-ru.ctls:
+			if c2 != ctl {
+				ru.ctls <- c2
+			}
+		default:
+		}
+	}
+	op.Queried = ctl.queried
+	switch {
+	case out.err == nil && out.f != nil:
+		op.Res = "filter"
+		op.ResTok = ru.noteFilter(out.f, int64(op.Height))
+	case errors.Is(out.err, neutrino.ErrShuttingDown):
+		op.Res = "quit"
+	case errors.Is(out.err, errInjected):
+		op.Res = "query"
+	case errors.Is(out.err, neutrino.ErrFilterFetchFailed):
+		op.Res = "fetch"
+	case out.err != nil:
+		op.Res = "other"
+	default:
+		op.Res = "nil-nil"
+		ru.fails = append(ru.fails, "result: GetCFilter returned (nil, nil)")
+	}
+	ru.observeCache(op)
+	if h.Persist {
+		if !ru.flush() {
+			h.Fail, h.FailAt = fmt.Sprintf("hang: batch writer did not persist %d queued filters", ru.added-ru.written), oi
+			return false
+		}
+		op.Flushed = true
+		ru.observeDB(op)
+	}
+	if len(ru.fails) > 0 && h.Fail == "" {
+		h.Fail, h.FailAt = ru.fails[0], oi
+	}
+	return true
+}
+
+// rewrite rolls the filter header store back to From-1 and writes new headers
+// From..tip through the real store; the filters committed at the toggled
+// heights change, and so do all headers from From on.
+func (ru *runner) rewrite(op *Op) {
+	fs := ru.env.CS.RegFilterHeaders
+	tip := len(ru.fhs) - 1
+	k := op.From
+	if k < 1 {
+		k = 1
+	}
+	if k > tip {
+		k = tip
+	}
+	op.From = k
+	for h := tip; h >= k; h-- {
+		if _, err := fs.RollbackLastBlock(&ru.ch.Hashes[h-1]); err != nil {
+			panic(err)
+		}
+	}
+	for _, t := range op.Toggle {
+		if t >= k && t <= tip {
+			ru.variant[t] = 1 - ru.variant[t]
+		}
+	}
+	var hdrs []headerfs.FilterHeader
+	prev := ru.fhs[k-1]
+	for h := k; h <= tip; h++ {
+		f := ru.ch.Commit[h]
+		if ru.variant[h] == 1 {
+			f = ru.ch.Alt[h]
+		}
+		nh, err := builder.MakeHeaderForFilter(f, prev)
+		if err != nil {
+			panic(err)
+		}
+		hdrs = append(hdrs, headerfs.FilterHeader{HeaderHash: ru.ch.Hashes[h], FilterHash: nh, Height: uint32(h)})
+		ru.fhs[h] = nh
+		prev = nh
+	}
+	if err := fs.WriteHeaders(hdrs...); err != nil {
+		panic(err)
+	}
+	// what the store says now
+	for h := k; h <= tip; h++ {
+		got, err := fs.FetchHeaderByHeight(uint32(h))
+		if err != nil {
+			panic(err)
+		}
+		ru.fhs[h] = *got
+	}
+	op.NewFHs = nil
+	for _, x := range ru.fhs {
+		op.NewFHs = append(op.NewFHs, ru.hdrTok(x))
+	}
+}
+
 func runHistory(h *History, work string) {
 	ch, tmpl := getChain(&h.Chain, work)
 	dir := filepath.Join(work, fmt.Sprintf("case-%d", h.ID))
@@ -541,9 +914,21 @@ func runHistory(h *History, work string) {
 	defer env.Close()
 
 	ru := &runner{ch: ch, env: env, hashID: map[chainhash.Hash]int64{}, nextHID: 1000,
-		ftok: q.NewInterner(10), htok: q.NewInterner(100), hf: map[[2]int64]int64{}, sizes: map[int64]int64{}}
+		ftok: q.NewInterner(10), htok: q.NewInterner(100), hf: map[[2]int64]int64{}, sizes: map[int64]int64{},
+		variant: make([]int, len(ch.Blocks)), ctls: make(chan *callCtl, 4)}
 	for i, hh := range ch.Hashes {
 		ru.hashID[hh] = int64(i)
+	}
+	env.WM.OnQuery = func(reqs []*query.Request, _ []query.QueryOption) chan error {
+		select {
+		case ctl := <-ru.ctls:
+			return ru.serve(ctl, h.Persist, reqs)
+		default:
+			ru.fails = append(ru.fails, "request: unexpected query")
+			ec := make(chan error, 1)
+			ec <- errInjected
+			return ec
+		}
 	}
 	// committed filter headers as the store has them
 	_, ftip, err := env.CS.RegFilterHeaders.ChainTip()
@@ -570,8 +955,7 @@ func runHistory(h *History, work string) {
 	ru.observeDB(&d0)
 	h.D0 = d0.DB
 
-	n := len(ch.Blocks) - 1
-	for oi := range h.Ops {
+	for oi := 0; oi < len(h.Ops); oi++ {
 		op := &h.Ops[oi]
 		switch op.Kind {
 		case "dropcache":
@@ -585,139 +969,84 @@ func runHistory(h *History, work string) {
 			ru.observeCache(op)
 			ru.observeDB(op)
 			continue
+		case "rewrite":
+			ru.rewrite(op)
+			ru.observeCache(op)
+			ru.observeDB(op)
+			continue
 		}
-		var target chainhash.Hash
-		if op.Height >= 0 && op.Height <= n {
-			target = ch.Hashes[op.Height]
-		} else {
-			op.Height = -1
-			target = chainhash.Hash{0xee, byte(oi), 0x02}
-		}
-		op.Range = [2]int64{0, 0}
-		env.WM.OnQuery = func(reqs []*query.Request, _ []query.QueryOption) chan error {
-			errChan := make(chan error, 1)
-			if len(reqs) != 1 {
-				ru.fails = append(ru.fails, fmt.Sprintf("request: %d requests in one GetCFilter query", len(reqs)))
-				errChan <- errInjected
-				return errChan
-			}
-			gcf, ok := reqs[0].Req.(*wire.MsgGetCFilters)
-			if !ok || gcf.FilterType != wire.GCSFilterRegular {
-				ru.fails = append(ru.fails, "request: GetCFilter did not send a regular getcfilters")
-			} else {
-				op.Range = [2]int64{int64(gcf.StartHeight), ru.hid(gcf.StopHash)}
-			}
-			for ri := range op.Resps {
-				r := &op.Resps[ri]
-				req, msg := ru.buildResp(r, reqs[0].Req)
-				switch {
-				case req == reqs[0].Req:
-					r.Req = 0
-				case r.Kind == "badreq_type":
-					r.Req = 2
-				default:
-					r.Req = 1
-				}
-				r.IsCF, r.TypeOK, r.DecodeOK, r.Blk, r.Filt = false, false, false, 0, 0
-				if cf, isCF := msg.(*wire.MsgCFilter); isCF {
-					r.IsCF = true
-					r.TypeOK = cf.FilterType == wire.GCSFilterRegular
-					r.Blk = ru.hid(cf.BlockHash)
-					f, err := gcs.FromNBytes(builder.DefaultP, builder.DefaultM, cf.Data)
-					if err == nil {
-						if _, err2 := builder.MakeHeaderForFilter(f, chainhash.Hash{}); err2 == nil {
-							r.DecodeOK = true
-							r.Filt = ru.noteFilter(f, r.Blk)
-						}
-					}
-				}
-				pg := reqs[0].HandleResp(req, msg, q.PeerAddr(1+ri%5))
-				r.Prog = 0
-				switch {
-				case pg.Finished && pg.Progressed:
-					r.Prog = 2
-				case pg.Progressed:
-					r.Prog = 1
-				case pg.Finished:
-					r.Prog = 3
-				}
-				if r.Prog != 0 && h.Persist {
-					ru.added++
-				}
-			}
-			switch op.Verdict {
-			case "ok":
-				errChan <- nil
-			case "err":
-				errChan <- errInjected
-			case "quit":
-				env.CS.VerifQuit()
-			}
-			return errChan
-		}
-		before := env.WM.Queries
-		type res struct {
-			f   *gcs.Filter
-			err error
-		}
-		done := make(chan res, 1)
-		go func() {
-			var opts []neutrino.QueryOption
-			switch op.Batch {
-			case 1:
-				opts = append(opts, neutrino.OptimisticBatch())
-			case 2:
-				opts = append(opts, neutrino.OptimisticReverseBatch())
-			}
-			if op.MaxBatch != 0 {
-				opts = append(opts, neutrino.MaxBatchSize(op.MaxBatch))
-			}
-			if oi%3 == 1 {
-				opts = append(opts, neutrino.NumRetries(uint8(oi)))
-			}
-			ft := wire.GCSFilterRegular
-			if op.FType != 0 {
-				ft = wire.FilterType(op.FType)
-			}
-			f, err := env.CS.GetCFilter(target, ft, opts...)
-			done <- res{f, err}
-		}()
-		var out res
-		select {
-		case out = <-done:
-		case <-time.After(20 * time.Second):
-			h.Fail, h.FailAt = fmt.Sprintf("hang: GetCFilter did not return (op %d)", oi), oi
-			return
-		}
-		op.Queried = env.WM.Queries != before
-		switch {
-		case out.err == nil && out.f != nil:
-			op.Res = "filter"
-			op.ResTok = ru.noteFilter(out.f, int64(op.Height))
-		case errors.Is(out.err, neutrino.ErrShuttingDown):
-			op.Res = "quit"
-		case errors.Is(out.err, errInjected):
-			op.Res = "query"
-		case errors.Is(out.err, neutrino.ErrFilterFetchFailed):
-			op.Res = "fetch"
-		case out.err != nil:
-			op.Res = "other"
-		default:
-			op.Res = "nil-nil"
-			ru.fails = append(ru.fails, "result: GetCFilter returned (nil, nil)")
-		}
-		ru.observeCache(op)
-		if h.Persist {
-			if !ru.flush() {
-				h.Fail, h.FailAt = fmt.Sprintf("hang: batch writer did not persist %d queued filters", ru.added-ru.written), oi
+		if !op.Hold {
+			ctl := ru.start(op, oi, false, false)
+			if !ru.finishObs(h, ctl, oi) {
 				return
 			}
-			op.Flushed = true
-			ru.observeDB(op)
+			continue
 		}
-		if len(ru.fails) > 0 && h.Fail == "" {
-			h.Fail, h.FailAt = ru.fails[0], oi
+		// call A is held in flight (it owns the single-flight mutex), call B is
+		// started and parks on the mutex, the headers are (possibly)
+		// rewritten, A completes, then B's query is answered.
+		ctlA := ru.start(op, oi, true, false)
+		inFlight := false
+		select {
+		case <-ctlA.inFlight:
+			inFlight = true
+		case r := <-ctlA.done:
+			ctlA.done <- r // A never reached the network: plain sequential execution
+		case <-time.After(30 * time.Second):
+			h.Fail, h.FailAt = fmt.Sprintf("hang: GetCFilter neither queried nor returned (op %d)", oi), oi
+			return
 		}
+		// find B (the next call) and an optional rewrite in between
+		bi, ri := -1, -1
+		for j := oi + 1; j < len(h.Ops) && j <= oi+2; j++ {
+			if h.Ops[j].Kind == "rewrite" && ri < 0 && bi < 0 {
+				ri = j
+			} else if h.Ops[j].Kind == "call" && h.Ops[j].Queued {
+				bi = j
+				break
+			} else {
+				break
+			}
+		}
+		// a B that is answered locally (or refused at once) does not queue on
+		// the mutex: run it sequentially instead (its cache access would be
+		// reordered with A's observation otherwise)
+		if inFlight && bi >= 0 && (h.Ops[bi].FType != 0 || ru.localHit(h.Ops[bi].Height)) {
+			bi = -1
+		}
+		if !inFlight || bi < 0 {
+			if inFlight {
+				ru.verdict(ctlA)
+			}
+			if !ru.finishObs(h, ctlA, oi) {
+				return
+			}
+			continue
+		}
+		ctlB := ru.start(&h.Ops[bi], bi, false, true)
+		// let B reach the mutex: it can neither finish a network query nor
+		// reach the work manager while A is in flight
+		select {
+		case <-ctlB.inFlight:
+			ru.fails = append(ru.fails, "mutex: a second GetCFilter query went out while one was in flight")
+		case <-time.After(60 * time.Millisecond):
+		}
+		if ri >= 0 {
+			ru.rewrite(&h.Ops[ri])
+		}
+		ru.verdict(ctlA)
+		if !ru.finishObs(h, ctlA, oi) {
+			return
+		}
+		if ri >= 0 {
+			ru.observeCache(&h.Ops[ri])
+			ru.observeDB(&h.Ops[ri])
+		}
+		close(ctlB.gate)
+		if !ru.finishObs(h, ctlB, bi) {
+			return
+		}
+		oi = bi
 	}
 	h.HfTab = nil
 	for k, v := range ru.hf {
@@ -754,16 +1083,26 @@ func caseTerm(h *History) (string, string) {
 		op := &h.Ops[i]
 		switch op.Kind {
 		case "dropcache":
-			steps = append(steps, c.Pair("DropCache", c.App("O_", "RNone", "false", "(0, 0)", "[]", pairs(op.Cache), "[]")))
+			steps = append(steps, c.Pair("XD", c.App("O_", "RNone", "false", "(0, 0)", "[]", pairs(op.Cache), "[]")))
 			sig = append(sig, "D")
 			continue
 		case "purge":
-			steps = append(steps, c.Pair("PurgeDB", c.App("O_", "RNone", "false", "(0, 0)", "[]", pairs(op.Cache), pairs(op.DB))))
+			steps = append(steps, c.Pair("XP", c.App("O_", "RNone", "false", "(0, 0)", "[]", pairs(op.Cache), pairs(op.DB))))
 			sig = append(sig, "P")
+			continue
+		case "rewrite":
+			steps = append(steps, c.Pair(c.App("XR", c.Z(h.Best), c.Ints(op.NewFHs)), c.App("O_", "RNone", "false", "(0, 0)", "[]", pairs(op.Cache), pairs(op.DB))))
+			sig = append(sig, "W")
 			continue
 		}
 		var rs, pg []string
 		s := fmt.Sprintf("b%d", op.Batch)
+		if op.Hold {
+			s = "H" + s
+		}
+		if op.Queued {
+			s = "Q" + s
+		}
 		for _, r := range op.Resps {
 			rs = append(rs, c.App("R_", c.Z(int64(r.Req)), c.Bool(r.IsCF), c.Bool(r.TypeOK), c.Z(r.Blk), c.Bool(r.DecodeOK), c.Z(r.Filt)))
 			if op.Queried {
@@ -799,7 +1138,7 @@ func caseTerm(h *History) (string, string) {
 		steps = append(steps, c.Pair(call, obs))
 		sig = append(sig, s)
 		if op.Flushed {
-			steps = append(steps, c.Pair("(Flush 1000000)", c.App("O_", "RNone", "false", "(0, 0)", "[]", pairs(op.Cache), pairs(op.DB))))
+			steps = append(steps, c.Pair("(XF 1000000)", c.App("O_", "RNone", "false", "(0, 0)", "[]", pairs(op.Cache), pairs(op.DB))))
 		}
 	}
 	t := fmt.Sprintf("(%d, (%d, %d, %s, %s,\n  %s,\n  %s, %s,\n  %s))", h.ID, h.Best, h.CacheCap, c.Bool(h.Persist),
@@ -893,6 +1232,12 @@ func main() {
 			flush()
 		}
 		sigs.Add(sig)
+		if strings.Contains(sig, "Q") {
+			rep.Histogram["histories_with_queued_call"]++
+		}
+		if strings.Contains(sig, "W") {
+			rep.Histogram["histories_with_header_rewrite"]++
+		}
 		if strings.Contains(sig, "N") && strings.Contains(sig, "i") {
 			nontrivial.Add(sig)
 		}
